@@ -27,8 +27,8 @@ def handle (op : String) (args : List String) : Option String :=
       | some maxId, some version, some bm, some (.dict tr, k :: rest') =>
         match k.toNat?.bind (fun k => parseObjects k rest') with
         | some (os, []) =>
-          let d : Doc := { version := version, binaryMark := bm, trailer := tr, objects := os, maxId := maxId,
-                           xrefKind := if kind = "stream" then .stream else .table }
+          let d : SDoc := { version := version, binaryMark := bm, trailer := tr, objects := os, maxId := maxId,
+                            xrefKind := if kind = "stream" then .stream else .table }
           match saveDoc d with
           | some (bytes, d') => "ok " ++ hexTok bytes ++ " " ++ toString d'.maxId ++ " " ++ showObj (.dict d'.trailer)
           | none => "err"
@@ -43,8 +43,8 @@ def handle (op : String) (args : List String) : Option String :=
       | some maxId, some version, some bm, some pv, some (.dict tr, k :: rest') =>
         match k.toNat?.bind (fun k => parseObjects k rest') with
         | some (os, []) =>
-          let d : Doc := { version := version, binaryMark := bm, trailer := tr, objects := os, maxId := maxId,
-                           xrefKind := if kind = "stream" then .stream else .table }
+          let d : SDoc := { version := version, binaryMark := bm, trailer := tr, objects := os, maxId := maxId,
+                            xrefKind := if kind = "stream" then .stream else .table }
           match saveIncr pv d with
           | some (bytes, d') => "ok " ++ hexTok bytes ++ " " ++ toString d'.maxId ++ " " ++ showObj (.dict d'.trailer)
           | none => "err"
